@@ -16,11 +16,12 @@ I = z3.IntSort()
 
 
 class IterV(object):
-    def __init__(self, n, item, items=None, src=None):
+    def __init__(self, n, item, items=None, src=None, dsrc=None):
         self.n = n            # z3 Int: number of elements
         self.item = item      # k (z3 Int) -> Val
         self.items = items    # python list of Vals for fixed-length iterables (unrolled)
         self.src = src        # (list Val, snapshot SeqV) when iterating a heap list
+        self.dsrc = dsrc      # (dict Val, snapshot of its key sequence) when iterating a heap dict
 
     def to_list(self, st):
         probe_k = z3.Int('k!tl%d' % st.nfresh)
@@ -59,7 +60,7 @@ def as_iter(st, v):
     if k == 'dict':
         kt, vt = v.t.args
         keys, mp, has = st.dict_parts(v.z, kt, vt)
-        return IterV(keys.n, lambda kk: Val(kt, z3.Select(keys.arr, kk)))
+        return IterV(keys.n, lambda kk: Val(kt, z3.Select(keys.arr, kk)), dsrc=(v, keys))
     if k in ('set', 'setv'):
         # iteration order of a set is unspecified: an arbitrary enumeration without repetition
         sv, et = B.set_value(st, v)
@@ -122,9 +123,11 @@ def make_dict_items(st, d):
     keys, mp, has = st.dict_parts(d.z, kt, vt)
 
     def item(kk):
+        # the value is read when the element is fetched (the body may have re-assigned earlier keys)
+        cur = st.dict_parts(d.z, kt, vt)[1]
         key = Val(kt, z3.Select(keys.arr, kk))
-        return Val(T.Ty('xtuple'), (key, Val(vt, z3.Select(mp, key.z))))
-    return Val(T.Ty('iter'), IterV(keys.n, item))
+        return Val(T.Ty('xtuple'), (key, Val(vt, z3.Select(cur, key.z))))
+    return Val(T.Ty('iter'), IterV(keys.n, item, dsrc=(d, keys)))
 
 
 def make_dict_values(st, d):
@@ -179,7 +182,7 @@ def loop_contract(st, s):
         raise Undecided('loop without ordinal/contract at line %s' % s.lineno)
     lc = c.loops.get(o)
     if lc is None:
-        raise Undecided('loop #%d at line %d of %s has no loop contract (new or unannotated loop)'
+        raise Undecided('loop #%s at line %d of %s has no loop contract (new or unannotated loop)'
                         % (o, s.lineno, st.ex.func_key))
     return o, lc
 
@@ -187,7 +190,7 @@ def loop_contract(st, s):
 def prove_invs(st, o, lc, phase, line):
     for i, inv in enumerate(lc.get('inv', [])):
         g = E.spec_bool(st, inv, dict(st.locals))
-        st.prove('loop#%d/inv#%d/%s' % (o, i, phase), g, kind='inv', lineno=line)
+        st.prove('loop#%s/inv#%d/%s' % (o, i, phase), g, kind='inv', lineno=line)
 
 
 def assume_invs(st, lc):
@@ -232,10 +235,12 @@ def exec_for(st, s):
     kname = '_k'
     saved_k = st.locals.get(kname)
     st.locals[kname] = Val(T.INT, z3.IntVal(0))
-    st.locals['_k%d' % o] = st.locals[kname]
-    st.locals['_n%d' % o] = Val(T.INT, it.n)
+    st.locals['_k%s' % o] = st.locals[kname]
+    st.locals['_n%s' % o] = Val(T.INT, it.n)
     if it.src is not None:
-        st.locals['_seq%d' % o] = Val(T.TSeq(it.src[0].t.args[0]), it.src[1])
+        st.locals['_seq%s' % o] = Val(T.TSeq(it.src[0].t.args[0]), it.src[1])
+    if it.dsrc is not None:
+        st.locals['_seq%s' % o] = Val(T.TSeq(it.dsrc[0].t.args[0]), it.dsrc[1])
     prove_invs(st, o, lc, 'entry', line)
     targets = loop_frame(st, lc)
     # havoc
@@ -247,16 +252,23 @@ def exec_for(st, s):
     kk = st.fresh(I, '_k')
     st.assume(z3.And(0 <= kk, kk <= it.n))
     st.locals[kname] = Val(T.INT, kk)
-    st.locals['_k%d' % o] = st.locals[kname]
+    st.locals['_k%s' % o] = st.locals[kname]
     if it.src is not None:
         # the iterated list is unchanged at the loop head (proved again at the end of the body)
         lv, snap = it.src
         cur = st.list_seq(lv.z, lv.t.args[0])
         st.assume(cur.n == snap.n)
         st.assume(cur.arr == snap.arr)
+    if it.dsrc is not None:
+        # the key sequence of the iterated dict is unchanged at the loop head (proved again at the end of the
+        # body: Python raises RuntimeError when the size changes during iteration)
+        dv, snap = it.dsrc
+        curk = st.dict_parts(dv.z, dv.t.args[0], dv.t.args[1])[0]
+        st.assume(curk.n == snap.n)
+        st.assume(curk.arr == snap.arr)
     assume_invs(st, lc)
     dec0 = None
-    if st.choose(2, 'loop#%d iterate/exit' % o) == 0:
+    if st.choose(2, 'loop#%s iterate/exit' % o) == 0:
         st.assume(kk < it.n)
         st.frames.append((targets, st.alloc))
         depth = len(st.frames) - 1
@@ -284,10 +296,15 @@ def exec_for(st, s):
         if it.src is not None:
             lv, snap = it.src
             cur = st.list_seq(lv.z, lv.t.args[0])
-            st.prove('loop#%d/iterated-list-unchanged' % o,
+            st.prove('loop#%s/iterated-list-unchanged' % o,
                      z3.And(cur.n == snap.n, cur.arr == snap.arr), kind='inv', lineno=line)
+        if it.dsrc is not None:
+            dv, snap = it.dsrc
+            curk = st.dict_parts(dv.z, dv.t.args[0], dv.t.args[1])[0]
+            st.prove('loop#%s/iterated-dict-keys-unchanged' % o,
+                     z3.And(curk.n == snap.n, curk.arr == snap.arr), kind='inv', lineno=line)
         st.locals[kname] = Val(T.INT, kk + 1)
-        st.locals['_k%d' % o] = st.locals[kname]
+        st.locals['_k%s' % o] = st.locals[kname]
         prove_invs(st, o, lc, 'preserved', line)
         st.ex.exits['cut'] += 1
         raise PathEnd()
@@ -336,7 +353,7 @@ def exec_while(st, s):
         prove_invs(st, o, lc, 'preserved', line)
         if dec0 is not None:
             dec1 = E.eval_spec(st, lc['dec'], dict(st.locals)).z
-            st.prove('loop#%d/decreases' % o, z3.And(dec0 >= 0, dec1 < dec0), kind='term', lineno=line)
+            st.prove('loop#%s/decreases' % o, z3.And(dec0 >= 0, dec1 < dec0), kind='term', lineno=line)
         st.ex.exits['cut'] += 1
         raise PathEnd()
     E.exec_block(st, s.orelse)
